@@ -24,11 +24,13 @@ LEVEL_NOTE = ("Theorems are about the Gallina model Schema/SchemaValidateModel.v
               "Schema.is_subtype/is_possible_type and the _is_valid memo (after fixes C13-01..04) over the "
               "by-name schema model Schema/SchemaFull.v; the model is tied to /repo by running both on "
               "generated schemas, histories, type pairs and resolver signatures on every run. "
+              "Direct validate_schema(.., enable_resolver_validation=b) calls are part of the histories. "
               "inspect.signature is trusted to describe a callable; assignment to Schema.default_resolver "
               "(not a registration) bypasses the memo and is outside the quantifier.")
 RULE = ("valid generated schemas over all six kinds (code- and SDL-built, wrappers to depth 3) with 0-4 "
         "labelled rule violations from 33 invalidators, type-order permutations, resolvers from the "
-        "signature grid on fields / object defaults; register/validate histories; is_subtype on all type "
+        "signature grid on fields / object defaults; register/validate histories incl. direct "
+        "validate_schema calls with enable_resolver_validation on and off; is_subtype on all type "
         "pairs of bounded depth over a 7-type schema; resolver signatures x argument sets with every "
         "allowed call shape performed; non-trivial = schema/history case that reached the validator; "
         "distinct = distinct case JSON")
@@ -217,6 +219,12 @@ def corpus():
         ["default", "Query", bad, False], ["validate"], ["resolver", "Query", "*", R3, False],
         ["subscription", "Query", "a", False], ["validate"], ["resolver", "Nope", "a", R3, False],
         ["resolver", "Query", "nope", R3, False], ["validate"]]})
+    # a structural-only validate_schema must not make the next validate() accept a bad resolver
+    out.append({"kind": "history", "spec": sp, "ops": [
+        ["resolver", "Query", "a", bad, True], ["validate_schema", False], ["validate"],
+        ["validate_schema", True], ["validate"]]})
+    out.append({"kind": "history", "spec": sp, "ops": [
+        ["validate"], ["default", "Query", bad, True], ["validate_schema", False], ["validate"]]})
     return out
 
 
@@ -267,8 +275,13 @@ def _history(rng, spec):
         fn = rng.choice(fnames) if fnames and rng.random() < 0.85 else rng.choice(["*", "nope"])
         f = next((x for x in td["fields"] if x["name"] == fn), None)
         allow = rng.random() < 0.6
-        if r < 0.35:
+        if r < 0.25:
             ops.append(["validate"])
+        elif r < 0.40:
+            # direct validate_schema calls, mostly structural-only, usually followed by validate()
+            ops.append(["validate_schema", rng.random() < 0.3])
+            if rng.random() < 0.7:
+                ops.append(["validate"])
         elif r < 0.75:
             sig = _good_or_random_sig(rng, f["args"] if f else [])
             ops.append(["resolver", tn, fn, sig, allow])
@@ -325,6 +338,19 @@ def generate(rng, tier):
         if i % 2 == 0:
             sp = _with_resolvers(rng, code) if rng.random() < 0.4 else code
             cases.append({"kind": "history", "spec": sp, "ops": _history(rng, sp)})
+    # a resolver only the signature rule rejects, then a structural-only validate_schema, then validate()
+    bad_sigs = [[["root", "PK", False]], R3 + [["extra", "PK", False]], [["ctx", "KO", False]]]
+    for i in range(8 if quick else 60):
+        base = dict(G.gen_valid_spec(rng, "code"), via="code")
+        if not _buildable(base):
+            continue
+        objs = [t for t in base["types"] if t["kind"] == "object" and t["fields"]]
+        td = rng.choice(objs)
+        pre = [["validate"]] if i % 2 else []
+        reg = (["resolver", td["name"], rng.choice(td["fields"])["name"], rng.choice(bad_sigs), True]
+               if i % 3 else ["default", td["name"], rng.choice(bad_sigs), True])
+        cases.append({"kind": "history", "spec": base, "ops": pre + [
+            reg, ["validate_schema", False], ["validate"], ["validate_schema", True], ["validate"]]})
     # every invalidator a few times on its own
     for k in G.INVALIDATORS:
         got = 0
@@ -386,6 +412,13 @@ def _apply_op(sch, op):
             v = SchemaValidator(sch)
             v()
             return res + [["fresh", _errors(v.errors)]]
+        if op[0] == "validate_schema":
+            # the module function, called directly (not through the memo)
+            try:
+                validate_schema(sch, enable_resolver_validation=op[1])
+                return ["direct_accepted"]
+            except SchemaValidationError as e:
+                return ["direct_invalid", _errors(e.errors)]
         if op[0] == "resolver":
             sch.register_resolver(op[1], op[2], G.make_fn(op[3]), allow_override=op[4])
         elif op[0] == "default":
@@ -463,6 +496,8 @@ def _cty(t):
 def _cop(op):
     if op[0] == "validate":
         return "OpValidate"
+    if op[0] == "validate_schema":
+        return "(OpValidateSchema %s)" % ser.cbool(op[1])
     if op[0] == "resolver":
         return "(OpRegisterResolver %s %s %s %s)" % (ser.cstr(op[1]), ser.cstr(op[2]), _csig(op[3]), ser.cbool(op[4]))
     if op[0] == "default":
@@ -471,9 +506,9 @@ def _cop(op):
 
 
 def _cstep(r):
-    if r[0] == "accepted":
+    if r[0] in ("accepted", "direct_accepted"):
         return "RAccepted"
-    if r[0] == "invalid":
+    if r[0] in ("invalid", "direct_invalid"):
         return "(RInvalid %s)" % ser.clist(r[1], _cverr)
     return {"done": "RDone", "ValueError": "RValueError", "UnknownType": "RUnknownType",
             "SchemaError": "RSchemaError"}.get(r[0], "RDone")
@@ -536,7 +571,7 @@ def _all_errors(obs):
         return obs["errors"]
     out = []
     for st in obs.get("steps", []):
-        if st[0] == "invalid":
+        if st[0] in ("invalid", "direct_invalid"):
             out += st[1]
     return out
 
